@@ -173,8 +173,16 @@ type Env struct {
 func (e *Env) Thorough() bool { return e.Tier == "thorough" }
 
 // N picks the case count for the tier, divided over shards (at least 1).
+// QuickScale multiplies the quick-tier case counts.
+const QuickScale = 4
+
 func (e *Env) N(quick, thorough int) int {
-	n := quick
+	// QuickScale: the quick tier runs a multiple of the per-check base counts (they were sized
+	// when a quick run took 1-3 s; a quick run may take half a minute)
+	n := quick * QuickScale
+	if n > thorough {
+		n = thorough
+	}
 	if e.Thorough() {
 		n = thorough
 	}
